@@ -140,16 +140,35 @@ fn jobj(items: &[(String, String)]) -> String {
     s.push('}');
     s
 }
+thread_local! {
+    /// number of calls into the library that panicked while the current event was recorded
+    static PANICS: std::cell::Cell<u32> = std::cell::Cell::new(0);
+}
+fn note_panic() {
+    PANICS.with(|p| p.set(p.get() + 1));
+}
+/// the number of panics since the last call (recorded in every event as "panics")
+pub fn take_panics() -> u32 {
+    PANICS.with(|p| p.replace(0))
+}
+// a panicking call is recorded with a value of the RIGHT TYPE (TLC cannot compare a string with a
+// number) and counted in "panics", which the specification requires to be 0
 fn call_u32<F: FnOnce() -> u32>(f: F) -> String {
     match catch_unwind(AssertUnwindSafe(f)) {
         Ok(v) => v.to_string(),
-        Err(_) => "\"panic\"".to_string(),
+        Err(_) => {
+            note_panic();
+            "-2".to_string()
+        }
     }
 }
 fn call_bool<F: FnOnce() -> bool>(f: F) -> String {
     match catch_unwind(AssertUnwindSafe(f)) {
         Ok(v) => v.to_string(),
-        Err(_) => "\"panic\"".to_string(),
+        Err(_) => {
+            note_panic();
+            "false".to_string()
+        }
     }
 }
 fn pa_from(a: &[u8]) -> BlockHashPositionArray {
@@ -187,7 +206,7 @@ pub fn ev_ed(sh: &mut Shards, a: &[u8], b: &[u8]) {
             })));
         }
     }
-    sh.emit(&format!("{{\"ev\":\"ed\",\"a\":{},\"b\":{},\"rs\":{}}}", jbh(a), jbh(b), jobj(&rs)));
+    sh.emit(&format!("{{\"ev\":\"ed\",\"a\":{},\"b\":{},\"rs\":{},\"panics\":{}}}", jbh(a), jbh(b), jobj(&rs), take_panics()));
 }
 /// common substring (C09)
 pub fn ev_sub(sh: &mut Shards, a: &[u8], b: &[u8]) {
@@ -219,7 +238,7 @@ pub fn ev_sub(sh: &mut Shards, a: &[u8], b: &[u8]) {
             FuzzyHashCompareTarget::from(&x).is_comparison_candidate(&y)
         })));
     }
-    sh.emit(&format!("{{\"ev\":\"sub\",\"a\":{},\"b\":{},\"rs\":{}}}", jbh(a), jbh(b), jobj(&rs)));
+    sh.emit(&format!("{{\"ev\":\"sub\",\"a\":{},\"b\":{},\"rs\":{},\"panics\":{}}}", jbh(a), jbh(b), jobj(&rs), take_panics()));
 }
 /// per-block-hash score (a normalised by contract)
 pub fn ev_ss(sh: &mut Shards, a: &[u8], b: &[u8], n: u8) {
@@ -241,7 +260,7 @@ pub fn ev_ss(sh: &mut Shards, a: &[u8], b: &[u8], n: u8) {
         let h = LongRawFuzzyHash::new_from_internals_near_raw(0, &[], a).normalize();
         FuzzyHashCompareTarget::from(&h).block_hash_2().score_strings_raw(b)
     })));
-    sh.emit(&format!("{{\"ev\":\"ss\",\"a\":{},\"b\":{},\"n\":{},\"rs\":{},\"raw\":{}}}", jbh(a), jbh(b), n, jobj(&rs), jobj(&raw)));
+    sh.emit(&format!("{{\"ev\":\"ss\",\"a\":{},\"b\":{},\"n\":{},\"rs\":{},\"raw\":{},\"panics\":{}}}", jbh(a), jbh(b), n, jobj(&rs), jobj(&raw), take_panics()));
 }
 
 // ------------------------------------------------------------------ hash-level events
@@ -287,13 +306,19 @@ pub fn ev_cmp(sh: &mut Shards, reuse: &mut FuzzyHashCompareTarget, x: &H, y: &H)
     {
         rs.push(("str".into(), match catch_unwind(|| ssdeep::compare(&xt, &yt)) {
             Ok(Ok(v)) => v.to_string(),
-            Ok(Err(_)) => "\"parse-error\"".into(),
-            Err(_) => "\"panic\"".into(),
+            Ok(Err(_)) => "-1".into(),
+            Err(_) => {
+                note_panic();
+                "-2".into()
+            }
         }));
         rev.push(("str".into(), match catch_unwind(|| ssdeep::compare(&yt, &xt)) {
             Ok(Ok(v)) => v.to_string(),
-            Ok(Err(_)) => "\"parse-error\"".into(),
-            Err(_) => "\"panic\"".into(),
+            Ok(Err(_)) => "-1".into(),
+            Err(_) => {
+                note_panic();
+                "-2".into()
+            }
         }));
     }
     #[cfg(not(feature = "easy-functions"))]
@@ -383,8 +408,8 @@ pub fn ev_cmp(sh: &mut Shards, reuse: &mut FuzzyHashCompareTarget, x: &H, y: &H)
     }
     sh.emit_w(
         &format!(
-            "{{\"ev\":\"cmp\",\"A\":{},\"B\":{},\"rs\":{},\"rev\":{},\"cand\":{},\"candrev\":{}}}",
-            x.j(), y.j(), jobj(&rs), jobj(&rev), jobj(&cand), jobj(&candrev)
+            "{{\"ev\":\"cmp\",\"A\":{},\"B\":{},\"rs\":{},\"rev\":{},\"cand\":{},\"candrev\":{},\"panics\":{}}}",
+            x.j(), y.j(), jobj(&rs), jobj(&rev), jobj(&cand), jobj(&candrev), take_panics()
         ),
         1,
     );
@@ -420,7 +445,7 @@ pub fn ev_win(sh: &mut Shards, x: &H) {
         h.block_hash_2_index_windows().len() as u64,
     ];
     sh.emit(&format!(
-        "{{\"ev\":\"win\",\"A\":{},\"w1\":{},\"w2\":{},\"n1\":{},\"n2\":{},\"i1\":{},\"i2\":{},\"lens\":{}}}",
+        "{{\"ev\":\"win\",\"panics\":0,\"A\":{},\"w1\":{},\"w2\":{},\"n1\":{},\"n2\":{},\"i1\":{},\"i2\":{},\"lens\":{}}}",
         jhash(h.log_block_size(), h.block_hash_1(), h.block_hash_2()),
         w(h.block_hash_1_windows()),
         w(h.block_hash_2_windows()),
@@ -698,9 +723,9 @@ fn tobs(sh: &mut Shards, tid: usize, t: &FuzzyHashCompareTarget, last: Option<&H
     let b1 = t.block_hash_1();
     let b2 = t.block_hash_2();
     sh.emit(&format!(
-        "{{\"ev\":\"tobs\",\"t\":{},\"valid\":{},\"fresheq\":{},\"k\":{},\"equiv\":[{}],\"cmp\":[{}],\"m1\":{},\"l1\":{},\"m2\":{},\"l2\":{}}}",
+        "{{\"ev\":\"tobs\",\"t\":{},\"valid\":{},\"fresheq\":{},\"k\":{},\"equiv\":[{}],\"cmp\":[{}],\"m1\":{},\"l1\":{},\"m2\":{},\"l2\":{},\"panics\":{}}}",
         tid, valid, fresheq, t.log_block_size(), eq.join(","), cm.join(","),
-        jmasks(b1.representation()), b1.len(), jmasks(b2.representation()), b2.len()
+        jmasks(b1.representation()), b1.len(), jmasks(b2.representation()), b2.len(), take_panics()
     ));
 }
 fn pobs(sh: &mut Shards, pid: usize, p: &BlockHashPositionArray, pool: &[Vec<u8>]) {
@@ -709,9 +734,9 @@ fn pobs(sh: &mut Shards, pid: usize, p: &BlockHashPositionArray, pool: &[Vec<u8>
         eq.push(format!("{{\"s\":{},\"r\":{}}}", jarr_u8(s), call_bool(|| p.is_equiv(s))));
     }
     sh.emit(&format!(
-        "{{\"ev\":\"pobs\",\"p\":{},\"len\":{},\"valid\":{},\"vn\":{},\"empty\":{},\"m\":{},\"equiv\":[{}]}}",
+        "{{\"ev\":\"pobs\",\"p\":{},\"len\":{},\"valid\":{},\"vn\":{},\"empty\":{},\"m\":{},\"equiv\":[{}],\"panics\":{}}}",
         pid, p.len(), call_bool(|| p.is_valid()), call_bool(|| p.is_valid_and_normalized()), p.is_empty(),
-        jmasks(p.representation()), eq.join(",")
+        jmasks(p.representation()), eq.join(","), take_panics()
     ));
 }
 /// a pool of NORMALISED hashes of differing lengths and symbol sets
@@ -853,7 +878,7 @@ pub fn drive_tables(a: &Args) {
     }
     let items: Vec<String> = all.iter().map(|&x| jw32(x)).collect();
     sh.next_unit();
-    sh.emit(&format!("{{\"ev\":\"bsvalid\",\"set\":[{}],\"swept\":\"all 2^32\"}}", items.join(",")));
+    sh.emit(&format!("{{\"ev\":\"bsvalid\",\"panics\":0,\"set\":[{}],\"swept\":\"all 2^32\"}}", items.join(",")));
     // (2) logarithms: all 256 u8
     for n in 0..=255u8 {
         if n % 32 == 0 {
@@ -865,7 +890,7 @@ pub fn drive_tables(a: &Args) {
             Some(bs) => (jw32(bs), block_size::log_from_valid(bs) as i32, block_size::is_valid(bs)),
             None => ("[-1,-1]".to_string(), -1, false),
         };
-        sh.emit(&format!("{{\"ev\":\"bslog\",\"n\":{},\"valid\":{},\"from\":{},\"back\":{},\"isvalid\":{}}}", n, valid, fj, back, isv));
+        sh.emit(&format!("{{\"ev\":\"bslog\",\"panics\":0,\"n\":{},\"valid\":{},\"from\":{},\"back\":{},\"isvalid\":{}}}", n, valid, fj, back, isv));
     }
     // (3) relations: all 31 x 31
     for x in 0..31u8 {
@@ -884,7 +909,7 @@ pub fn drive_tables(a: &Args) {
                 std::cmp::Ordering::Greater => 1,
             };
             sh.emit(&format!(
-                "{{\"ev\":\"bsrel\",\"a\":{},\"b\":{},\"rel\":\"{}\",\"near\":{},\"eq\":{},\"lt\":{},\"gt\":{},\"ord\":{},\"relnear\":{}}}",
+                "{{\"ev\":\"bsrel\",\"panics\":0,\"a\":{},\"b\":{},\"rel\":\"{}\",\"near\":{},\"eq\":{},\"lt\":{},\"gt\":{},\"ord\":{},\"relnear\":{}}}",
                 x, y, rs, block_size::is_near(x, y), block_size::is_near_eq(x, y), block_size::is_near_lt(x, y),
                 block_size::is_near_gt(x, y), ord, r.is_near()
             ));
@@ -897,7 +922,7 @@ pub fn drive_tables(a: &Args) {
             let rs: Vec<u64> = (0..=(l1 as u32 + l2 as u32 - 14))
                 .map(|d| FuzzyHashCompareTarget::raw_score_by_edit_distance(l1, l2, d) as u64)
                 .collect();
-            sh.emit(&format!("{{\"ev\":\"rawscore\",\"l1\":{},\"l2\":{},\"rs\":{}}}", l1, l2, jarr_u64(&rs)));
+            sh.emit(&format!("{{\"ev\":\"rawscore\",\"panics\":0,\"l1\":{},\"l2\":{},\"rs\":{}}}", l1, l2, jarr_u64(&rs)));
         }
     }
     // (5) score cap: all (n, l1, l2) in 0..=31 x 0..=64 x 0..=64
@@ -908,7 +933,7 @@ pub fn drive_tables(a: &Args) {
                 .map(|l2| FuzzyHashCompareTarget::score_cap_on_block_hash_comparison(n, l1, l2) as u64)
                 .collect();
             sh.emit(&format!(
-                "{{\"ev\":\"cap\",\"n\":{},\"l1\":{},\"rs\":{},\"border\":{}}}",
+                "{{\"ev\":\"cap\",\"panics\":0,\"n\":{},\"l1\":{},\"rs\":{},\"border\":{}}}",
                 n, l1, jarr_u64(&rs), FuzzyHashCompareTarget::LOG_BLOCK_SIZE_CAPPING_BORDER
             ));
         }
